@@ -57,7 +57,10 @@ Inductive api :=
 | ApiAnnStart | ApiAnnStop
 | ApiAnnounce (i : N) | ApiStopAnnounce (i : N) (send_stop : bool)
 | ApiQueueSend (e : sdentry) (d : dest) | ApiSendSd (es : list sdentry) (d : dest)
-| ApiSetReject (i : N) (egs : list N).     (* the server listener of instance i changes its mind: from now on it rejects these eventgroup ids *)
+| ApiSetReject (i : N) (egs : list N)      (* the server listener of instance i changes its mind: from now on it rejects these eventgroup ids *)
+| ApiSoon (c : api).                       (* application code that runs one loop iteration later: loop.call_soon(lambda: c) *)
+(* the call an application makes in the end *)
+Fixpoint api_strip (c : api) : api := match c with ApiSoon c' => api_strip c' | _ => c end.
 
 Inductive handle :=
 | HDatagram (from : addr) (mc : bool) (data : bytes)
